@@ -33,6 +33,10 @@ impl RequestHandler<PrepareRenameRequest> for PrepareRenameRequestHandler {
             let source_column = params.position.character as usize;
 
             if let Some(source_file) = codegen.tree().files.get(file_path) {
+                // The position is supplied by the client and may lie beyond the end of the file
+                if source_line >= source_file.file.num_lines() {
+                    return Ok(None);
+                }
                 let line = source_file.file.source_line(source_line);
 
                 // Try to find the start of identifier under the cursor
